@@ -15,3 +15,8 @@ def write (args : List String) : String :=
   s!"ws={wsLens r.ws}\ttotal={r.total}\tok={if r.ok then 1 else 0}"
 
 end Driver.PartIO
+
+def main : IO Unit := Driver.runLoop fun op args =>
+  match op with
+  | "partio.write" => Driver.PartIO.write args
+  | _ => "unknown-op"
